@@ -64,6 +64,7 @@ func VerifyIndex(ctx context.Context, name string, idx Index, n int, pb Progress
 	batch := chunksNum / (n * 10)
 
 	// Feed the workers, stop if there are any errors
+	var interrupted bool
 loop:
 	for i := 0; i < chunksNum; i = i + batch + 1 {
 		last := i + batch
@@ -75,6 +76,7 @@ loop:
 		select {
 		case <-ctx.Done():
 			verifYield("pl.leave")
+			interrupted = true
 			break loop
 		case in <- idx.Chunks[i : last+1]:
 		}
@@ -82,5 +84,11 @@ loop:
 	verifYield("pl.close")
 	close(in)
 
-	return g.Wait()
+	if err := g.Wait(); err != nil {
+		return err
+	}
+	if interrupted { // stopped feeding without a worker error: not all chunks were verified
+		return Interrupted{}
+	}
+	return nil
 }
